@@ -64,6 +64,8 @@ class _ReIterable:
 
     def __iter__(self):
         self._sim.stats["probe:container_iterable_iter_calls"] += 1
+        if self._sim.cur_spawn is self._req:
+            self._req.iter_in_request += 1       # iter() called synchronously inside the spawn call (matters if it is rejected)
         return self._sim._arg_iter(self._req)
 
     def __len__(self):
@@ -185,7 +187,7 @@ class ReqRec:
     __slots__ = ("label", "pc", "kind", "spec", "gname", "func", "spawners", "calls", "pulls",
                  "tasks", "skipped", "cancelled_seq", "accepted_seq", "elems", "num", "nc",
                  "ecb_kind", "ccb_kind", "payload_args", "payload_kwargs", "exhausted",
-                 "lock_hit", "probe", "last_el", "called_els", "last_started_el", "iter_failed")
+                 "lock_hit", "probe", "last_el", "called_els", "last_started_el", "iter_failed", "iter_in_request")
 
     def __init__(self, label, pc, kind, spec):
         self.last_el = -1
@@ -215,6 +217,7 @@ class ReqRec:
         self.exhausted = False
         self.lock_hit = False
         self.probe = False
+        self.iter_in_request = 0
 
     # ---- derived
     def total(self):
@@ -639,6 +642,9 @@ class Sim:
             self.violate("C09", "call_in_request", "func called synchronously inside the spawn call")
         if req.cancelled_seq is not None and not plain and not req.iter_failed:
             self.violate("C07", "call_after_cancel", f"func of cancelled request r{req.label} called")
+            if req.kind in ("apply", "start"):
+                # C04: "only cancelling the group stops the remainder" - and cancelling it does stop it
+                self.violate("C04", "call_after_cancel", f"func of cancelled {req.kind} request r{req.label} called: cancelling the group did not stop the remainder")
         # ---- arguments
         if req.kind in ("apply", "start"):
             pa, pk = (req.payload_args, req.payload_kwargs)
@@ -867,6 +873,8 @@ class Sim:
         name = f"#{n} of {pc.pool_str}"
         if req.cancelled_seq is not None and not req.iter_failed:
             self.violate("C07", "task_after_cancel", f"task {name} of cancelled request r{req.label} created")
+            if req.kind in ("apply", "start"):
+                self.violate("C04", "task_after_cancel", f"task {name} of cancelled {req.kind} request r{req.label} created: cancelling the group did not stop the remainder")
         if pc.closed:
             self.violate("C08", "task_after_close", f"task {name} created in closed pool")
         if pc.size is not None and pc.n_run > pc.size and not pc.size_changed:
@@ -1242,6 +1250,7 @@ class Sim:
 
     # ------------------------------------------------------------------ steps
     def exec_step(self, step, ctx=None):
+        self._void_own = None
         op = step["op"]
         at = step.get("at")
         if at is not None and ctx is None:
@@ -1313,7 +1322,12 @@ class Sim:
                         elems.append(_FALSY[i % len(_FALSY)] if b == 2 else Payload(("el", label, i)))
                     elif kind == "starmap":
                         tup = (Payload(("el", label, i, 0)), Payload(("el", label, i, 1)))
-                        elems.append(7 if b == 1 else (() if b == 2 else (_OneShot(tup) if b == 3 else tup)))
+                        if b == 6:
+                            elems.append("ab")          # a string is an iterable of two arguments, like any other
+                        elif b == 7:
+                            elems.append(b"xy")         # bytes: two ints
+                        else:
+                            elems.append(7 if b == 1 else (() if b == 2 else (_OneShot(tup) if b == 3 else tup)))
                     else:
                         if b == 5:
                             elems.append({k: Payload(("el", label, i, k)) for k in ("group_name", "func", "self", "end_callback")})
@@ -1381,6 +1395,8 @@ class Sim:
             if exc is not None:
                 if kind == "start":
                     pc.rejected_starts += 1
+                if req.iter_in_request:
+                    self.violate("C09", "args_iterable_touched", f"rejected {kind} called iter() on its argument iterable {req.iter_in_request}x")
                 if kind == "apply" and step.get("ash") == 4 and counting is not None and counting.pulled:
                     self.violate("C09", "args_iterable_touched", f"rejected apply advanced its args iterator {counting.pulled}x")
                 after = self._snapshot(pc)
@@ -1463,6 +1479,21 @@ class Sim:
                 return {X.InvalidTaskID}, t
         return {X.InvalidTaskID}, None
 
+    def _void_self_cancel(self, ctx):
+        """A worker requests the cancellation of its own task in its very last statement and then returns: the request
+        can no longer be delivered to the coroutine, which ends normally - so no cancel callback, one end callback,
+        running -> ended (C03 covers this).  What the then 'cancelled' asyncio task does to a later flush()/
+        gather_and_close() is specified by no property, so this is only explored when C03 alone is being decided,
+        and only if the end callback cannot suspend (a suspended callback would receive the CancelledError)."""
+        if self.props != {"C03"} or ctx is None or ctx[0] != "we":
+            return False
+        own = ctx[1].trec
+        if own is None or (own.req.ecb_kind or "s")[0] == "g":
+            return False
+        self._void_own = own
+        self.stats["probe:self_cancel_in_last_statement"] += 1
+        return True
+
     def _self_cancel_grey(self, ctx, targets):
         """A worker cancelling its own task with no suspension point left: outside the properties."""
         if ctx is None or ctx[0] not in ("ws", "we", "wc"):
@@ -1502,7 +1533,7 @@ class Sim:
                 bad_classes |= cls
         if "F-EARLY" in self.steer and any(t.state == "U" for t in targets):
             return self._steer("F-EARLY")
-        if self._self_cancel_grey(ctx, targets):
+        if self._self_cancel_grey(ctx, targets) and not self._void_self_cancel(ctx):
             return False
         if any(t.early and t.task.done() for t in targets) and any(d.kind == "gather" for d in pc.act_drivers):
             # (unsteered F-EARLY runs only) a task that was cancelled before its first step is dead but still filed as
@@ -1526,6 +1557,8 @@ class Sim:
             if any(t is not None and t.state == "E" for t in forg):
                 self.violate("C13", "flushed_id_accepted", f"cancel{tuple(ids)} returned")
         for t in targets:
+            if t is self._void_own:
+                continue          # (its own request comes too late to be delivered: the coroutine returns first)
             t.pend_cancel += 1
             t.pend_prop = "C06"
             if t.state == "U":
@@ -1557,7 +1590,7 @@ class Sim:
             targets = self._group_targets(req)
             if "F-EARLY" in self.steer and any(t.state == "U" for t in targets):
                 return self._steer("F-EARLY")
-            if self._self_cancel_grey(ctx, targets):
+            if self._self_cancel_grey(ctx, targets) and not self._void_self_cancel(ctx):
                 return False
         self.last_cancel_prop = "C07"
         before = self._snapshot(pc) if req is None else None
@@ -1610,6 +1643,8 @@ class Sim:
         else:
             self.stats["place:cancel_after_spawner_done"] += 1
         for t in self._group_targets(req):
+            if t is self._void_own:
+                continue          # (its own request comes too late to be delivered: the coroutine returns first)
             t.pend_cancel += 1
             t.pend_prop = prop
             if t.state == "U":
@@ -1625,7 +1660,7 @@ class Sim:
         targets = [t for r in pc.live_names.values() for t in self._group_targets(r)]
         if "F-EARLY" in self.steer and any(t.state == "U" for t in targets):
             return self._steer("F-EARLY")
-        if self._self_cancel_grey(ctx, targets):
+        if self._self_cancel_grey(ctx, targets) and not self._void_self_cancel(ctx):
             return False
         self.last_cancel_prop = "C07"
         try:
@@ -1649,7 +1684,7 @@ class Sim:
             exp = running[:max(0, n)]
         if "F-EARLY" in self.steer and any(t.state == "U" for t in exp):
             return self._steer("F-EARLY")
-        if self._self_cancel_grey(ctx, exp):
+        if self._self_cancel_grey(ctx, exp) and not self._void_self_cancel(ctx):
             return False
         self.last_cancel_prop = "C14"
         try:
@@ -1668,6 +1703,8 @@ class Sim:
             self.violate("C14", "stop_ids", f"stop({'all' if step.get('all') else n}) returned {list(got)}, expected {exp_ids}")
         by = {t.tid: t for t in running}
         for t in exp:
+            if t is self._void_own:
+                continue          # (its own request comes too late to be delivered: the coroutine returns first)
             t.pend_cancel += 1
             t.pend_prop = "C14"
             if t.state == "U":
